@@ -3,19 +3,24 @@
              the bytes must be exactly the model's print of that tree, and the tree must be well formed;
     KCodec : InflateAndDecode on (encoding, b64, message) with compress/flate's own answer for the decoded data;
     KEnc   : DeflateAndBase64 output against base64 of compress/flate's own output;
-    KEsc   : xml.EscapeText. *)
-From Saml Require Import Base.Bytes Codec.Base64 Codec.XmlEscape Xml.Tree Xml.Lex Xml.Balanced Gen.Facts Core.WireCodec.
+    KEsc   : xml.EscapeText;
+    KStruct: a value of one of the library's XML model types (generic value, no tag information) with the document
+             Marshal produced for it: the schema-driven model of encoding/xml (Xml/Schema.v over the generated
+             Gen/Schema.v) must produce exactly those bytes. *)
+From Saml Require Import Base.Bytes Codec.Base64 Codec.XmlEscape Xml.Tree Xml.Lex Xml.Balanced Gen.Facts Core.WireCodec Xml.SchemaTypes Xml.Schema Gen.Schema.
 Inductive c18case :=
 | KDoc (id : Z) (header : bool) (t : xml) (doc : bytes)
 | KCodec (id : Z) (encoding : bytes) (b64 : bool) (msg : bytes) (inflated : option bytes) (obs : option bytes)
 | KEnc (id : Z) (deflated out : bytes) (back : option bytes)
-| KEsc (id : Z) (s escaped : bytes).
-Definition c18_id (c : c18case) : Z := match c with KDoc i _ _ _ | KCodec i _ _ _ _ _ | KEnc i _ _ _ | KEsc i _ _ => i end.
+| KEsc (id : Z) (s escaped : bytes)
+| KStruct (id : Z) (ty : string) (v : gval) (doc : bytes).
+Definition c18_id (c : c18case) : Z := match c with KDoc i _ _ _ | KCodec i _ _ _ _ _ | KEnc i _ _ _ | KEsc i _ _ | KStruct i _ _ _ => i end.
 Definition c18_ok (c : c18case) : bool :=
   match c with
   | KDoc _ h t doc => wfb t && beq (if h then marshal_doc t else marshal t) doc
   | KCodec _ enc b64 msg inflated obs => option_eqb beq (inflate_and_decode (fun _ => inflated) ci_MaxInflatedSize enc b64 msg) obs
   | KEnc _ deflated out back => beq (b64_encode deflated) out && option_eqb beq (b64_decode out) back
   | KEsc _ s e => beq (xml_escape s) e
+  | KStruct _ ty v doc => option_eqb beq (marshal_struct_doc xml_schema ty v) (Some doc)
   end.
 Definition c18_bad (cs : list c18case) : list Z := map c18_id (filter (fun c => negb (c18_ok c)) cs).
